@@ -714,3 +714,52 @@ fn c13_polls_track_work_stages() {
     }
     println!("CASES c13_polls_track_work_stages {cases}");
 }
+
+/// the unification loop on a hand-built typing state: MANY classes that hold one judgement each and ONE class that needs
+/// a merge.  Every class visit is an iteration of the loop, so with interval k the loop polls about (classes x passes) / k
+/// times — at least once per k classes of a single pass — and a stop answered at any of those polls is honoured
+#[test]
+fn c13_unification_polls_track_class_visits() {
+    use storage_layout_extractor::{tc::{expression::TE, state::TypeCheckerState, unification}, vm::value::{known::KnownWord, Provenance, RSV, RSVD}};
+    std::panic::set_hook(Box::new(|_| {}));
+    let build = |n: usize, merge_at: usize| -> TypeCheckerState {
+        let mut state = TypeCheckerState::empty();
+        for i in 0..n {
+            let key = RSV::new_known_value(i as u32, KnownWord::from_le(i as u32), Provenance::Synthetic, None);
+            let v = state.register(RSV::new_synthetic(i as u32, RSVD::StorageSlot { key }));
+            state.infer(v, TE::bytes(None));
+            if i == merge_at { state.infer(v, TE::address()); }
+        }
+        state
+    };
+    let mut cases = 0;
+    for n in [20usize, 60, 200] {
+        for every in [2usize, 3, 7, 10] {
+            for merge_at in [0, n / 2, n - 1] {
+                cases += 1;
+                let wd = CountingWatchdog::counting(every);
+                let mut state = build(n, merge_at);
+                let dyn_wd = wd.in_rc();
+                let r = unification::unify(&mut state, &dyn_wd);
+                let polls = wd.polls();
+                // one full pass over the n classes alone is n iterations
+                if r.is_ok() && (polls + 1) * every < n {
+                    witness("C13", "polls.track_work.unification", format!("{n} classes of one judgement each, the class at position {merge_at} with two; interval {every}"), format!("{polls} polls"), format!("at least {} (one per {every} class visits of a single pass)", n / every - 1));
+                }
+                // a stop from every poll index that a full run reaches is honoured
+                for k in [1usize, polls / 2, polls.saturating_sub(1)] {
+                    if k == 0 || k >= polls { continue; }
+                    let wd = CountingWatchdog::stop_from(every, k);
+                    let mut state = build(n, merge_at);
+                    let dyn_wd = wd.in_rc();
+                    let r = unification::unify(&mut state, &dyn_wd);
+                    let stopped = matches!(&r, Err(e) if e.payloads().iter().any(|p| format!("{:?}", p.payload).contains("StoppedByWatchdog")));
+                    if !stopped || wd.polls() > k + 2 {
+                        witness("C13", "stop.honoured.unification", format!("{n} classes, merge at {merge_at}, interval {every}, stop from poll {k} of {polls}"), format!("stopped={stopped} after {} polls", wd.polls()), format!("a stopped error within 2 polls of poll {k}"));
+                    }
+                }
+            }
+        }
+    }
+    println!("CASES c13_unify_polls {cases}");
+}
